@@ -98,12 +98,14 @@ impl Model for TwinModel {
             let cls = if so_c.outcome.ok { err_class(&o_n.err) } else { err_class(&so_c.outcome.err) };
             // the engine took the reverse path when the cw20 run executed two vAMM swaps (close leg + open leg)
             let reversal = reversal || so_c.swaps.len() >= 2;
-            let refine = if so_c.outcome.ok && kind == "open" && reversal && cls == "sent-funds" {
-                "reversal-native-demands-more-than-cw20-pulls"
-            } else if so_c.outcome.ok && kind == "close" && fees && cls == "transfer-failure" {
-                "fees-taken-from-short-vault"
+            // the error text only helps to tell causes apart; a refusal whose text the harness does not know ("other")
+            // in the situation of a listed finding is that finding
+            let (cls, refine) = if so_c.outcome.ok && kind == "open" && reversal && (cls == "sent-funds" || cls == "other") {
+                ("sent-funds".to_string(), "reversal-native-demands-more-than-cw20-pulls")
+            } else if so_c.outcome.ok && kind == "close" && fees && (cls == "transfer-failure" || cls == "other") {
+                ("transfer-failure".to_string(), "fees-taken-from-short-vault")
             } else {
-                "unclassified"
+                (cls, "unclassified")
             };
             out.viol(
                 format!("C13:outcome-differs:{}:{}-fails:{}:{}", kind, if so_c.outcome.ok { "native" } else { "cw20" }, cls, refine),
